@@ -152,9 +152,9 @@ def floats(tier):
 
 
 def strs(tier):
-    p = ["", "a", "Hello, World", "abc123", " pad ", "UPPER lower"]
+    p = ["", "a", "Hello, World", "abc123", " pad ", "UPPER lower", "100%d %s%n"]
     if tier != "quick":
-        p += ["0", "tab\there", 'say "hi"', "back\\slash", "line\nbreak", "x" * 300, "aaa", "World"]
+        p += ["0", "tab\there", 'say "hi"', "back\\slash", "line\nbreak", "x" * 300, "aaa", "World", "%", "y" * 5000]
     return p
 
 
@@ -564,40 +564,73 @@ def _observe_lines(k, call, ret, val, eps):
     raise ValueError(ret)
 
 
+FORMS = {"quick": ("lit", "fn"), "thorough": ("lit", "let", "mut", "fn")}
+# how the arguments reach the built-in:
+#   lit  literals in the call                      (constant folding, literal emission)
+#   let  immutable locals                          (the C back end inlines immutable constants)
+#   mut  mutable locals
+#   fn   parameters of a wrapper function          (values only known at run time; the call is the wrapper's return value)
+NANO_TYPE = {"I": "int", "B": "bool", "S": "string", "F": "float"}
+
+
+def _ptype(v):
+    return "bool" if isinstance(v, bool) else "int" if isinstance(v, int) else "float" if isinstance(v, float) else "string"
+
+
 def _units_of(sp, tier, counter):
     name = sp["name"]
-    tag = name + ("_" + sp["variant"] if sp["variant"] else "")
     modelled, open_ = [], []
     for args in sp["gen"](tier):
         v = sp["model"](*args)
         if v is OMIT:
             continue
         (open_ if v is UNDEF else modelled).append((args, v))
-    for kind, calls in (("", modelled), ("u", open_)):
-        ch = CHUNK[tier]
-        for c0 in range(0, len(calls), ch):
-            part = calls[c0:c0 + ch]
-            binds = {}
-            stmts, exp, detail = [], [], []
-            for k, (args, v) in enumerate(part):
-                call = _call_text(name, args, binds)
-                st, ex = _observe_lines(k, call, sp["ret"], v, sp["eps"])
-                stmts.append(st)
-                exp.append(ex)
-                detail.append((_call_text(name, args, {}), st.count("(println"), ex))
-            lets = "".join("    let %s: array<%s> = %s\n" % (nm, _elem_type(a), repr(a)) for nm, a in binds.values())
-            body = lets + "".join(stmts) + "    return %d\n" % len(part)
-            texts = [_call_text(name, a, {}) for a, _v in part]
-            u = {"name": "bi_%s_%s%d" % (tag, kind, c0 // ch), "body": body,
-                 "expected": None if kind == "u" else "".join(exp), "ret": len(part),
-                 "what": "%s%s: %d calls %s .. %s%s" % (name, "" if kind == "" else " (result not documented, engines compared)", len(part),
-                                                      texts[0][:60].replace("\n", " "), texts[-1][:60].replace("\n", " "), (" [" + sp["note"] + "]") if sp["note"] else "")}
-            if sp["engines"]:
-                u["engines"] = sp["engines"]
-            u["calls"] = detail      # (call text, number of lines it prints, expected lines or None): for diagnosis tools
-            counter[0] += 1
-            yield u
-
+    scalar = sp["ret"] in NANO_TYPE and all(not isinstance(x, Arr) for c in (modelled + open_)[:1] for x in c[0])
+    forms = FORMS[tier] if scalar else ("lit",)
+    if tier == "quick" and scalar and any(isinstance(x, float) for c in (modelled + open_)[:1] for x in c[0]):
+        forms = forms + ("let",)         # float constants have a code path of their own in the C back end
+    for form in forms:
+        tag = name + ("_" + sp["variant"] if sp["variant"] else "") + ("" if form == "lit" else "_" + form)
+        for kind, calls in (("", modelled), ("u", open_)):
+            ch = CHUNK[tier]
+            for c0 in range(0, len(calls), ch):
+                part = calls[c0:c0 + ch]
+                uname = "bi_%s_%s%d" % (tag, kind, c0 // ch)
+                binds = {}
+                stmts, exp, detail = [], [], []
+                decls = ""
+                callee = name
+                if form == "fn":
+                    callee = uname + "_w"
+                    ptypes = [_ptype(x) for x in part[0][0]]
+                    decls = "fn %s(%s) -> %s {\n    return (%s%s)\n}\nshadow %s { assert true }\n" % (
+                        callee, ", ".join("p%d: %s" % (i, t) for i, t in enumerate(ptypes)), NANO_TYPE[sp["ret"]],
+                        name, "".join(" p%d" % i for i in range(len(ptypes))), callee)
+                for k, (args, v) in enumerate(part):
+                    pre = ""
+                    if form in ("let", "mut"):
+                        pre = "".join("    let %sv%d_%d: %s = %s\n" % ("mut " if form == "mut" else "", k, i, _ptype(x), lit(x)) for i, x in enumerate(args))
+                        call = "(%s%s)" % (name, "".join(" v%d_%d" % (k, i) for i in range(len(args))))
+                    else:
+                        call = _call_text(callee, args, binds)
+                    st, ex = _observe_lines(k, call, sp["ret"], v, sp["eps"])
+                    stmts.append(pre + st)
+                    exp.append(ex)
+                    detail.append((_call_text(name, args, {}), st.count("(println"), ex))
+                lets = "".join("    let %s: array<%s> = %s\n" % (nm, _elem_type(a), repr(a)) for nm, a in binds.values())
+                body = lets + "".join(stmts) + "    return %d\n" % len(part)
+                texts = [d[0] for d in detail]
+                u = {"name": uname, "decls": decls, "body": body,
+                     "expected": None if kind == "u" else "".join(exp), "ret": len(part),
+                     "what": "%s%s, arguments as %s: %d calls %s .. %s%s" % (
+                         name, "" if kind == "" else " (result not documented, engines compared)",
+                         {"lit": "literals", "let": "immutable locals", "mut": "mutable locals", "fn": "parameters of a wrapper function"}[form], len(part),
+                         texts[0][:60].replace("\n", " "), texts[-1][:60].replace("\n", " "), (" [" + sp["note"] + "]") if sp["note"] else "")}
+                if sp["engines"]:
+                    u["engines"] = sp["engines"]
+                u["calls"] = detail      # (call text, number of lines it prints, expected lines or None): for diagnosis tools
+                counter[0] += 1
+                yield u
 
 
 # ------------------------------------------------------------------------------------------ range / mutators / bytes
@@ -733,6 +766,177 @@ def bytes_units(tier):
 
 CUSTOM = {"range": range_units, "array_push": mutator_units, "string_from_bytes": bytes_units}      # keyed by a built-in that must be registered
 
+# ------------------------------------------------------------------------------------------ compositions, loops, churn
+def _py(name):
+    """the plain Python meaning of a built-in, chosen by the types of the arguments (the models of SPECS)"""
+    def f(*a):
+        for sp in SPECS:
+            if sp["name"] != name:
+                continue
+            try:
+                first = next(iter(sp["gen"]("quick")))
+            except StopIteration:
+                continue
+            if len(first) == len(a) and all(_ptype(x) == _ptype(y) for x, y in zip(first, a) if not isinstance(x, Arr)) and \
+                    all(isinstance(x, Arr) == isinstance(y, Arr) for x, y in zip(first, a)):
+                return sp["model"](*a)
+        raise KeyError((name, a))
+    return f
+
+
+def _ev(e):
+    """e: a Python value, or (name, e1, ..) a call, or ("+", a, b) string concatenation / int addition"""
+    if not isinstance(e, tuple):
+        return e
+    args = [_ev(x) for x in e[1:]]
+    if any(x is UNDEF or x is OMIT for x in args):
+        return OMIT
+    if e[0] == "+":
+        return args[0] + args[1] if isinstance(args[0], str) else wrap(args[0] + args[1])
+    if e[0] == "-":
+        return wrap(args[0] - args[1])
+    if e[0] == "/":          # truncating division, divisor never 0 here
+        q = abs(args[0]) // abs(args[1])
+        return wrap(q if (args[0] < 0) == (args[1] < 0) else -q)
+    if e[0] == "<":
+        return args[0] < args[1]
+    return _py(e[0])(*args)
+
+
+def _tx(e):
+    if isinstance(e, Arr):
+        return repr(e)
+    if not isinstance(e, tuple):
+        return lit(e)
+    return "(%s%s)" % (e[0], "".join(" " + _tx(x) for x in e[1:]))
+
+
+def law_units(tier):
+    """built-ins fed with the results of built-ins: the value printed is the composition of the Python models"""
+    groups = []
+    S, N = strs(tier), conv_ints(tier)
+    short = [x for x in S if len(x) <= 20]
+    groups.append(("roundtrip_int", [("string_to_int", ("int_to_string", n)) for n in N]))
+    groups.append(("len_of_int", [("str_length", ("int_to_string", n)) for n in N]))
+    groups.append(("roundtrip_char", [("char_at", ("string_from_char", c), 0) for c in range(1, 128) if c != 13]))
+    groups.append(("len_of_char", [("str_length", ("string_from_char", c)) for c in (1, 9, 10, 32, 48, 65, 97, 126, 127)]))
+    groups.append(("split_join", [("str_concat", ("str_substring", x, 0, k), ("str_substring", x, k, len(x) - k)) for x in short for k in range(len(x) + 1)]))
+    groups.append(("len_of_concat", [("str_length", ("str_concat", a, b)) for a in short for b in short]))
+    groups.append(("concat_contains", [("str_contains", ("str_concat", a, b), b) for a in short for b in short]))
+    groups.append(("concat_equals_plus", [("str_equals", ("str_concat", a, b), ("+", a, b)) for a in short for b in short]))
+    groups.append(("case_roundtrip", [("char_to_upper", ("char_to_lower", c)) for c in range(32, 128)]))
+    groups.append(("upper_of_upper", [("is_upper", ("char_to_upper", c)) for c in range(32, 128)]))
+    groups.append(("digit_of_decimal", [("digit_value", ("char_at", ("int_to_string", d), 0)) for d in range(10)]))
+    groups.append(("alnum_of_char_at", [("is_alnum", ("char_at", x, i)) for x in short for i in range(len(x))]))
+    groups.append(("int_float_int", [("cast_int", ("cast_float", n)) for n in ints(tier) if abs(n) < (1 << 53)]))
+    groups.append(("abs_of_min_max", [(o, ("abs", (i, a, b)), 7) for o in ("min", "max") for i in ("min", "max") for a in ints(tier)[:9] for b in ints(tier)[:9]]))
+    groups.append(("string_of_length", [("int_to_string", ("str_length", x)) for x in S]))
+    groups.append(("substring_of_substring", [("str_substring", ("str_substring", x, 1, len(x)), 1, 3) for x in S]))
+    groups.append(("concat3", [("str_concat", ("str_concat", a, b), a) for a in short[:5] for b in short[:5]]))
+    groups.append(("length_of_slice", [("array_length", ("array_slice", a, s0, l0)) for a, s0, l0 in slice_args(tier)]))
+    groups.append(("at_of_slice", [("at", ("array_slice", a, s0, l0), l0 - 1) for a, s0, l0 in slice_args(tier) if l0 >= 1 and a.elem == "int"]))
+    groups.append(("bool_of_cast", [("cast_bool", ("cast_int", b)) for b in (False, True)] + [("cast_int", ("cast_bool", n)) for n in ints(tier)]))
+    # an int result is a signed 64-bit int in arithmetic and comparisons (C's strlen / size_t results are not)
+    int_results = [("str_length", x) for x in short[:4]] + [("array_length", a) for a in int_arrays(tier)[:3]] + \
+        [("char_at", "Hello", 1), ("digit_value", 55), ("digit_value", 65), ("string_to_int", "42"), ("abs", -5), ("min", 3, 4), ("max", 3, 4),
+         ("cast_int", 2.5), ("cast_int", True), ("char_to_lower", 65), ("char_to_upper", 97), ("at", Arr("int", [4, 5, 6]), 1)]
+    groups.append(("signed_arith", [("/", ("-", r, 1000), 2) for r in int_results]))
+    groups.append(("signed_compare", [x for r in int_results for x in (("<", -1, r), ("<", ("-", r, 1000), 0))]))
+    for gname, exprs in groups:
+        items = []
+        for e in exprs:
+            v = _ev(e)
+            if v is OMIT or v is UNDEF:
+                continue
+            binds = {}
+
+            def tx(x):
+                if isinstance(x, Arr):
+                    key = repr(x) + x.elem
+                    if key not in binds:
+                        binds[key] = "w@K_%d" % len(binds)
+                    return binds[key]
+                if not isinstance(x, tuple):
+                    return lit(x)
+                return "(%s%s)" % (x[0], "".join(" " + tx(y) for y in x[1:]))
+            t = tx(e)
+            pre = "".join("    let %s: array<%s> = %s\n" % (nm, "int" if key.endswith("int") else "string", key[:-3] if key.endswith("int") else key[:-6]) for key, nm in binds.items())
+            if isinstance(v, str):
+                items.append((pre + '    (println (+ "[" (+ %s "]")))\n' % t, "[" + v + "]\n", _tx(e)[:80].replace("\n", " ")))
+            else:
+                items.append((pre + "    (println %s)\n" % t, show(v) + "\n", _tx(e)[:80].replace("\n", " ")))
+        for u in _pack("law_" + gname, items, tier, "composition " + gname, chunk=32):
+            yield u
+
+
+def loop_units(tier):
+    """the loop variable of a for / while loop as the argument; results accumulated over the whole loop"""
+    items = []
+    hi = 256 if tier == "quick" else 1024
+    for name in ("is_digit", "is_alpha", "is_alnum", "is_whitespace", "is_upper", "is_lower"):
+        f = _py(name)
+        for lo in (0, -64):
+            n = sum(1 for i in range(lo, hi) if f(i) is True)
+            st = "    let mut n@K: int = 0\n    for i@K in (range %d %d) {\n        if (%s i@K) { set n@K (+ n@K 1) } else {}\n    }\n    (println n@K)\n" % (lo, hi, name)
+            items.append((st, "%d\n" % n, "count of (%s i) for i in %d..%d" % (name, lo, hi)))
+    for name in ("digit_value", "char_to_lower", "char_to_upper", "abs"):
+        f = _py(name)
+        tot = wrap(sum(f(i) for i in range(-64, hi)))
+        st = "    let mut n@K: int = 0\n    let mut j@K: int = -64\n    while (< j@K %d) {\n        set n@K (+ n@K (%s j@K))\n        set j@K (+ j@K 1)\n    }\n    (println n@K)\n" % (hi, name)
+        items.append((st, "%d\n" % tot, "sum of (%s j) for j in -64..%d (while loop)" % (name, hi)))
+    # alphabet built from character codes; its characters read back
+    st = '    let mut s@K: string = ""\n    for i@K in (range 65 91) {\n        set s@K (str_concat s@K (string_from_char i@K))\n    }\n    (println s@K)\n    (println (str_length s@K))\n'
+    items.append((st, "ABCDEFGHIJKLMNOPQRSTUVWXYZ\n26\n", "str_concat of (string_from_char i) for i in 65..91"))
+    text = "Hello, World"
+    st = "    let t@K: string = %s\n    let mut n@K: int = 0\n    for i@K in (range 0 (str_length t@K)) {\n        set n@K (+ (* n@K 31) (char_at t@K i@K))\n    }\n    (println n@K)\n" % slit(text)
+    h = 0
+    for ch in text:
+        h = wrap(h * 31 + ord(ch))
+    items.append((st, "%d\n" % h, "polynomial hash over (char_at t i)"))
+    st = "    let mut n@K: int = 0\n    for i@K in (range -1000 1000) {\n        set n@K (+ n@K (str_length (int_to_string i@K)))\n    }\n    (println n@K)\n"
+    items.append((st, "%d\n" % sum(len(str(i)) for i in range(-1000, 1000)), "sum of (str_length (int_to_string i)) for i in -1000..1000"))
+    st = "    let mut n@K: int = 0\n    for i@K in (range -50 50) {\n        set n@K (+ n@K (+ (min i@K 7) (max i@K -7)))\n    }\n    (println n@K)\n"
+    items.append((st, "%d\n" % sum(min(i, 7) + max(i, -7) for i in range(-50, 50)), "sum of (min i 7) + (max i -7) for i in -50..50"))
+    st = "    let mut n@K: int = 0\n    for i@K in (range 0 200) {\n        set n@K (+ n@K (string_to_int (int_to_string (* i@K i@K))))\n    }\n    (println n@K)\n"
+    items.append((st, "%d\n" % sum(i * i for i in range(200)), "sum of (string_to_int (int_to_string (* i i)))"))
+    st = "    let mut n@K: int = 0\n    for i@K in (range 0 100) {\n        set n@K (+ n@K (cast_int (sqrt (cast_float (* i@K i@K)))))\n    }\n    (println n@K)\n"
+    items.append((st, "%d\n" % sum(range(100)), "sum of (cast_int (sqrt (cast_float (* i i))))"))
+    st = "    let mut n@K: int = 0\n    for i@K in (range 0 64) {\n        set n@K (+ n@K (cast_int (floor (/ (cast_float i@K) 4.0))))\n        set n@K (+ n@K (cast_int (ceil (/ (cast_float i@K) 4.0))))\n    }\n    (println n@K)\n"
+    items.append((st, "%d\n" % sum(i // 4 + -(-i // 4) for i in range(64)), "sum of floor(i/4) + ceil(i/4)"))
+    return _pack("loop", items, tier, "built-in applied to a loop variable", chunk=6)
+
+
+def churn_units(tier):
+    """many results alive or dropped: strings and arrays made by built-ins inside loops (heap growth, release)"""
+    items = []
+    for n in ((2000,) if tier == "quick" else (2000, 20000)):
+        st = ('    let mut s@K: string = ""\n    for i@K in (range 0 %d) {\n        set s@K (str_concat s@K "ab")\n    }\n    (println (str_length s@K))\n'
+              '    (println (str_substring s@K %d 5))\n    (println (char_at s@K %d))\n    (println (str_contains s@K "ba"))\n    (println (str_contains s@K "aa"))\n' % (n, n - 1, 2 * n - 1))
+        items.append((st, "%d\n%s\n98\ntrue\nfalse\n" % (2 * n, ("ab" * n)[n - 1:n + 4]), "str_concat %d times, then substring / char_at / contains" % n))
+    n = 3000 if tier == "quick" else 30000
+    st = ('    let t@K: string = "Hello, World"\n    let mut c@K: int = 0\n    for i@K in (range 0 %d) {\n        let p@K: string = (str_substring t@K (%% i@K 12) 3)\n'
+          '        set c@K (+ c@K (str_length p@K))\n    }\n    (println c@K)\n' % n)
+    items.append((st, "%d\n" % sum(len("Hello, World"[i % 12:i % 12 + 3]) for i in range(n)), "%d short-lived substrings" % n))
+    st = ('    let mut a@K: array<int> = []\n    for i@K in (range 0 %d) {\n        set a@K (array_push a@K (* i@K 3))\n    }\n    (println (array_length a@K))\n    (println (at a@K %d))\n'
+          '    let b@K: array<int> = (array_slice a@K 10 %d)\n    (println (array_length b@K))\n    (println (at b@K 0))\n    (println (at b@K %d))\n' % (n, n - 1, n - 20, n - 21))
+    items.append((st, "%d\n%d\n%d\n30\n%d\n" % (n, 3 * (n - 1), n - 20, 3 * (n - 11)), "array_push %d times, array_slice of almost all" % n))
+    st = ('    let mut a@K: array<string> = []\n    for i@K in (range 0 %d) {\n        set a@K (array_push a@K (int_to_string i@K))\n    }\n    let mut c@K: int = 0\n'
+          '    for j@K in (range 0 (array_length a@K)) {\n        set c@K (+ c@K (str_length (at a@K j@K)))\n    }\n    (println c@K)\n    (println (at a@K %d))\n' % (n // 3, n // 3 - 1))
+    items.append((st, "%d\n%d\n" % (sum(len(str(i)) for i in range(n // 3)), n // 3 - 1), "%d strings from int_to_string kept in an array" % (n // 3)))
+    st = ('    let mut a@K: array<int> = (array_new 100 1)\n    let mut c@K: int = 0\n    for i@K in (range 0 %d) {\n        (array_set a@K (%% i@K 100) i@K)\n        set c@K (+ c@K (at a@K (%% (* i@K 7) 100)))\n    }\n    (println c@K)\n' % n)
+    arr = [1] * 100
+    c = 0
+    for i in range(n):
+        arr[i % 100] = i
+        c += arr[(i * 7) % 100]
+    items.append((st, "%d\n" % c, "array_new 100, then %d array_set / at" % n))
+    return _pack("churn", items, tier, "built-in results inside loops", chunk=2)
+
+
+CUSTOM["law"] = law_units
+CUSTOM["loop"] = loop_units
+CUSTOM["churn"] = churn_units
+
 # ------------------------------------------------------------------------------------------ generic fallback
 UNCOVERED = []
 
@@ -755,8 +959,9 @@ def units(tier):
             continue             # the tree under test does not register it
         for u in _units_of(sp, tier, counter):
             yield u
-    for key in ("range", "array_push", "string_from_bytes"):
-        if key in known:
+    for key, needs in (("range", "range"), ("array_push", "array_push"), ("string_from_bytes", "string_from_bytes"),
+                       ("law", "str_concat"), ("loop", "is_digit"), ("churn", "array_push")):
+        if needs in known:
             for u in CUSTOM[key](tier):
                 counter[0] += 1
                 yield u
